@@ -1,2 +1,57 @@
-From Coq Require Import ZArith List.
-From BT Require Import Model.Alloc.
+(* C17 -- running out of memory inside an operation is reported, not corrupting.
+   Model/Alloc.v: a bucket's two vectors over an explicit block heap in which a
+   successful realloc always releases the old block; the n-th allocation
+   request fails.  sound b h: no field refers to a released block, the vectors
+   are distinct blocks, nothing leaks, len <= size. *)
+From Coq Require Import List Bool Arith.
+From BT Require Import Model.Alloc Proofs.AllocProofs.
+Import ListNotations.
+
+Definition kind_ok (noval : bool) (b : bucket) : Prop :=
+  if noval then b_vals b = None else (b_vals b = None <-> b_keys b = None).
+
+(* Bucket_grow, for EVERY placement of the failing request (any countdown in h) *)
+Theorem C17_grow : forall (noval : bool) (b : bucket) (h : heap),
+  sound b h -> kind_ok noval b ->
+  match bucket_grow noval b h with
+  | ROk b' h' => sound b' h' /\ kind_ok noval b' /\ b_len b' = b_len b /\ b_size b < b_size b'
+  | RMem b' h' => sound b' h' /\ kind_ok noval b' /\ b_len b' = b_len b
+  end.
+Proof. exact AllocProofs.grow_sound. Qed.
+Print Assumptions C17_grow.
+
+(* inserting a new key: MemoryError leaves the previous length, success adds one; never dangling *)
+Theorem C17_insert : forall (noval : bool) (b : bucket) (h : heap),
+  sound b h -> kind_ok noval b ->
+  match bucket_insert noval b h with
+  | ROk b' h' => sound b' h' /\ kind_ok noval b' /\ b_len b' = S (b_len b)
+  | RMem b' h' => sound b' h' /\ kind_ok noval b' /\ b_len b' = b_len b
+  end.
+Proof. exact AllocProofs.insert_sound. Qed.
+Print Assumptions C17_insert.
+
+(* any number of inserts from the empty bucket, the failing request anywhere *)
+Theorem C17_inserts : forall (noval : bool) (n fail_at : nat),
+  match inserts noval n empty_bucket (heap0 fail_at) with
+  | ROk b h => sound b h /\ b_len b = n
+  | RMem b h => sound b h /\ b_len b < n
+  end.
+Proof. exact AllocProofs.inserts_sound. Qed.
+Print Assumptions C17_inserts.
+
+(* the realloc pair of __setstate__ / fromBytes *)
+Theorem C17_resize : forall (n : nat) (b : bucket) (h : heap),
+  sound b h -> kind_ok false b -> b_size b <> 0 ->
+  match bucket_resize n b h with
+  | ROk b' h' => sound b' h' /\ n <= b_size b' /\ b_len b' = b_len b
+  | RMem b' h' => sound b' h' /\ b_len b' = b_len b
+  end.
+Proof. exact AllocProofs.resize_sound. Qed.
+Print Assumptions C17_resize.
+
+Example C17_example :
+  match inserts false 17 empty_bucket (heap0 4) with
+  | RMem b h => (b_len b, b_size b, b_keys b, b_vals b, live h) = (16, 16, Some 2, Some 1, [2; 1])
+  | ROk _ _ => False
+  end.
+Proof. vm_compute. reflexivity. Qed.
